@@ -24,12 +24,13 @@ pub struct Engine<'a, L> {
     gs_id: Vec<(Box<str>, Box<str>)>,
     // Attributes of each node (in default graph and named graphs)
     node: Vec<HashMap<Box<str>, Vec<RdfObject>>>,
-    // Maps each graph_name index to its subjects indexes
-    unique_parent: HashMap<Box<str>, Option<(usize, Box<str>)>>,
+    // Maps the index of each blank node used as object to its unique parent (node index, predicate),
+    // or to None if it is referenced several times
+    unique_parent: HashMap<usize, Option<(usize, Box<str>)>>,
     // List seeds
     list_seeds: Vec<usize>,
-    // Mark bnode ids as list node, and map to their index
-    list_node: HashMap<Box<str>, usize>,
+    // Mark (the index of) bnodes as list node, and map to the index of their parent
+    list_node: HashMap<usize, usize>,
     // Mark index of bnode as compound literals
     compound_literals: HashSet<usize>,
 }
@@ -93,8 +94,9 @@ impl<'a, L> Engine<'a, L> {
             }
             if q.o().is_bnode() {
                 let parent = (is, q.p().as_id());
+                let io = self.index(g_id.clone(), q.o().as_id());
                 self.unique_parent
-                    .entry(q.o().as_id())
+                    .entry(io)
                     .and_modify(|opt| {
                         if let Some(p) = opt {
                             if p != &parent {
@@ -164,7 +166,7 @@ impl<'a, L> Engine<'a, L> {
     fn mark_list_node(&mut self, inode: usize) {
         let (g_id, s_id) = &self.gs_id[inode];
         debug_assert!(s_id.starts_with("_:"), "{}", s_id);
-        if let Some((iparent, pp)) = &self.unique_parent[s_id] {
+        if let Some(Some((iparent, pp))) = self.unique_parent.get(&inode) {
             if self.options.processing_mode() == JsonLd1_0 && pp.as_ref() == RDF_FIRST {
                 return;
             }
@@ -175,7 +177,7 @@ impl<'a, L> Engine<'a, L> {
                 let map = &mut self.node[inode];
                 if is_list_node(map) {
                     // this node is indeed a list node
-                    self.list_node.insert(s_id.clone(), *iparent);
+                    self.list_node.insert(inode, *iparent);
                     if ps_id.starts_with("_:") && pp.as_ref() == RDF_REST {
                         let iparent = *iparent;
                         // the explicit copy of iparent above is required,
@@ -209,7 +211,7 @@ impl<'a, L> Engine<'a, L> {
             // we will include it later
             return Ok(None);
         }
-        if self.list_node.contains_key(s_id)
+        if self.list_node.contains_key(&inode)
             || (self.options.rdf_direction() == Some(RdfDirection::CompoundLiteral)
                 && self.compound_literals.contains(&inode))
         {
@@ -345,7 +347,7 @@ impl<'a, L> Engine<'a, L> {
                     json_syntax::json!({
                         "@id": JsonValue::from(id.as_ref()),
                     })
-                } else if self.list_node.contains_key(id) {
+                } else if self.list_node.contains_key(inode) {
                     let mut list_items = Vec::new();
                     self.populate_list(&mut list_items, *inode)?;
                     json_syntax::json!({
